@@ -330,6 +330,13 @@ def vacuity_edges(view, Q, f, d):
             for tb in f.cfg.succ[bi]:
                 if edge_presence(disc, t, tb) == "absent":
                     edges.add((bi, tb))
+        # (a'b) the same for a `&mut P` looked up in queue-level code (an inlined new Store helper: `map.get_full_mut(k).map(|..| write)`):
+        #       on the None edge of the lookup ITSELF there is no reference to write through
+        if d.kind == "ANYQP" and d.site_term is not None and disc[0] == "discr" and _is_term(disc[1], d.site_term):
+            from .core import edge_presence
+            for tb in f.cfg.succ[bi]:
+                if edge_presence(disc, t, tb) == "absent":
+                    edges.add((bi, tb))
         # (a'') a test made AFTER the event that the queue is empty: `if !self.is_empty() { heap_build() }`
         dd = disc
         negd = False
@@ -368,6 +375,13 @@ def vacuity_edges(view, Q, f, d):
                 if v <= limit:
                     vac_targets.add(tb)
     return edges, vac_targets
+
+
+def _is_term(t, site):
+    t = strip(t)
+    while isinstance(t, tuple) and t and t[0] in ("ref", "deref", "rawref"):
+        t = strip(t[1])
+    return t == strip(site)
 
 
 def is_pos0(t, pos):
